@@ -68,6 +68,7 @@ pub fn fixed_programs() -> Vec<(String, Vec<Stmt>)> {
         ("gate-params-not-visible-outside", vec![Stmt::Gate { name: "g".into(), params: Some(vec!["t".into()]), qubits: vec!["q".into()], body: vec![] }, decl(Ty::Float(None), "x", Some(id("t"))), Stmt::Reset(o("q"))]),
         ("builtin-gate-arity", vec![qd("q"), call("U", Some(vec![int(1), int(2)]), vec![o("q")]), call("U", u3(), vec![o("q"), o("q")]), call("U", u3(), vec![o("q")]), call("U", None, vec![o("q")])]),
         ("stdgates-arity", vec![inc(), qd("q"), qd("r"), call("h", None, vec![o("q")]), call("cx", None, vec![o("q")]), call("cx", None, vec![o("q"), o("r")]), call("rz", None, vec![o("q")]), call("rz", Some(vec![int(1)]), vec![o("q")]), call("h", Some(vec![int(1)]), vec![o("q")]), call("ccx", None, vec![o("q"), o("r")]), call("cu", Some(vec![int(1), int(2), int(3), int(4)]), vec![o("q"), o("r")])]),
+        ("empty-parameter-list", vec![inc(), qd("q"), qd("r"), call("h", Some(vec![]), vec![o("q")]), call("rz", Some(vec![]), vec![o("q")]), call("U", Some(vec![]), vec![o("q")]), call("cu", Some(vec![]), vec![o("q"), o("r")]), Stmt::Gate { name: "g2".into(), params: Some(vec!["a".into(), "b".into()]), qubits: vec!["x".into()], body: vec![] }, call("g2", Some(vec![]), vec![o("q")]), Stmt::GateCall { mods: vec![Modifier::Inv], name: "rz".into(), args: Some(vec![]), operands: vec![o("q")] }, Stmt::GateCall { mods: vec![Modifier::Pow(int(2))], name: "x".into(), args: Some(vec![]), operands: vec![o("q")] }]),
         ("stdgates-not-included", vec![qd("q"), call("h", None, vec![o("q")])]),
         ("double-include", vec![inc(), inc(), qd("q"), call("h", None, vec![o("q")])]),
         ("user-gate-then-include", vec![Stmt::Gate { name: "h".into(), params: Some(vec!["t".into()]), qubits: vec!["a".into()], body: vec![] }, inc(), qd("r"), call("h", Some(vec![Expr::Float("0.5".into())]), vec![o("r")]), call("x", None, vec![o("r")])]),
@@ -97,6 +98,7 @@ pub fn fixed_programs() -> Vec<(String, Vec<Stmt>)> {
         ("annotation-in-block", vec![decl(Ty::Int(None), "a", None), Stmt::If { cond: tru(), then: blk(vec![Stmt::Annotated(vec!["@inner".into()], Box::new(asg("a", Expr::Cast(Ty::Int(None), bx(int(1))))))]), els: None }, decl(Ty::Int(None), "b", None)]),
         ("redeclare-builtins", vec![decl(Ty::Int(None), "pi", None), Stmt::Gate { name: "U".into(), params: None, qubits: vec!["q".into()], body: vec![] }, Stmt::If { cond: tru(), then: blk(vec![decl(Ty::Int(None), "pi", None), decl(Ty::Float(None), "tau", Some(id("pi")))]), els: None }, decl(Ty::Float(None), "t2", Some(id("tau")))]),
         ("indexing-and-measure", vec![qr("q", 4), decl(Ty::Bit(Some(bx(int(4)))), "c", None), decl(Ty::Bit(None), "b", None), call("U", u3(), vec![oi("q", 0)]), Stmt::Assign { target: LValue::Indexed("c".into(), vec![Index::List(vec![IndexItem::Expr(int(0))])]), op: AssignOp::Assign, value: Expr::Measure(oi("q", 0)) }, asg("c", Expr::Measure(o("q"))), asg("b", Expr::Measure(oi("q", 3))), call("U", u3(), vec![Operand::Indexed("q".into(), vec![Index::List(vec![IndexItem::Range(int(0), None, int(1))])])]), call("U", u3(), vec![Operand::Indexed("q".into(), vec![Index::Set(vec![int(0), int(2)])])])]),
+        ("assign-from-indexed", vec![decl(Ty::Bit(Some(bx(int(4)))), "c", None), decl(Ty::Bit(Some(bx(int(4)))), "d", None), decl(Ty::Bit(None), "b", None), asg("b", Expr::IndexedId("c".into(), vec![Index::List(vec![IndexItem::Expr(int(1))])])), Stmt::Assign { target: LValue::Indexed("d".into(), vec![Index::List(vec![IndexItem::Expr(int(0))])]), op: AssignOp::Assign, value: Expr::IndexedId("c".into(), vec![Index::List(vec![IndexItem::Expr(int(2))])]) }, Stmt::Assign { target: LValue::Indexed("d".into(), vec![Index::List(vec![IndexItem::Expr(int(3))])]), op: AssignOp::Assign, value: id("b") }, Stmt::If { cond: tru(), then: sgl(asg("b", Expr::IndexedId("d".into(), vec![Index::List(vec![IndexItem::Expr(int(1))])]))), els: None }]),
         ("for-iterables", vec![decl(Ty::Int(None), "acc", None), Stmt::For { ty: Ty::Int(None), var: "i".into(), iter: ForIter::Range(int(0), Some(int(2)), int(8)), body: blk(vec![asg("acc", id("i"))]) }, Stmt::For { ty: Ty::UInt(Some(bx(int(8)))), var: "j".into(), iter: ForIter::Set(vec![int(1), int(5), int(9)]), body: sgl(asg("acc", Expr::Cast(Ty::Int(None), bx(id("j"))))) }, Stmt::For { ty: Ty::Int(None), var: "k".into(), iter: ForIter::Range(int(3), None, id("acc")), body: blk(vec![]) }]),
         ("expressions", vec![decl(Ty::Int(None), "a", Some(int(3))), decl(Ty::Int(None), "b", Some(Expr::Un(UnOp::Neg, bx(int(4))))), decl(Ty::Int(None), "s", Some(Expr::Bin(BinOp::Add, bx(id("a")), bx(Expr::Bin(BinOp::Mul, bx(id("b")), bx(id("a"))))))), decl(Ty::Int(None), "t", Some(Expr::Bin(BinOp::Sub, bx(Expr::Paren(bx(Expr::Bin(BinOp::Rem, bx(id("a")), bx(id("b")))))), bx(Expr::Un(UnOp::Neg, bx(id("a"))))))), decl(Ty::Int(None), "u", Some(Expr::Bin(BinOp::BitXor, bx(Expr::Bin(BinOp::BitAnd, bx(id("a")), bx(id("b")))), bx(Expr::Bin(BinOp::BitOr, bx(id("a")), bx(Expr::Bin(BinOp::Shl, bx(id("b")), bx(Expr::Bin(BinOp::Shr, bx(id("a")), bx(id("b"))))))))))), decl(Ty::Float(None), "f", Some(Expr::Bin(BinOp::Div, bx(Expr::Float("1.5".into())), bx(Expr::Float("0.5".into()))))), decl(i32t(), "c", Some(Expr::Cast(i32t(), bx(id("f"))))), Stmt::If { cond: Expr::Bin(BinOp::Eq, bx(id("a")), bx(id("b"))), then: blk(vec![]), els: None }, Stmt::If { cond: Expr::Bin(BinOp::Neq, bx(id("a")), bx(id("b"))), then: blk(vec![]), els: None }]),
         ("power-operator", vec![decl(Ty::Int(None), "a", Some(int(3))), Stmt::If { cond: Expr::Bin(BinOp::Pow, bx(id("a")), bx(int(2))), then: blk(vec![]), els: None }]),
